@@ -14,6 +14,9 @@
 //     dates, 256-byte metadata, seller fee "1", basket drained, ...) are produced by real
 //     messages, with a round trip after each.
 //
+// Two patch cases (fee params that only a genesis file can contain) carry on after the round trip with
+// a BuyDirect; what happens is reported under "observation" in the summary.
+//
 // Output: <dir>/traces/trace_genesisprobe_NNN.json (chain.Trace JSON with `genesis_rt` items, the
 // format driver/genesis_cases.py converts) and <dir>/summary.json.  Every case carries the verdict
 // the author expected from reading the Go code; deviations are listed under "surprises" (they do
